@@ -12,8 +12,8 @@
      - window: (sum of RequestChunks.maxChunks) never exceeds (number of IsProcessed = true
        answers) + ParallelChunksDownload;
      - no RequestChunks in a routine run whose Suspend() returned true;
-     - after a Done() = true nothing is called any more, except that Done() may be polled again
-       (and answers true: the application's Done() is monotone). *)
+     - after a Done() = true, and after an external Terminate() has returned, nothing is called
+       any more (no Done, IsProcessed, Suspend, RequestChunks). *)
 From Coq Require Import NArith List Bool.
 From LV Require Import model.Leecher.
 Import ListNotations.
@@ -84,16 +84,21 @@ Record pmon := mkPM {
 Definition pmon_init : pmon := mkPM 0 0 false false.
 
 Definition pmon_ev (par : N) (m : pmon) (e : pev) : option pmon :=
-  if w_fin m then match e with PDone true => Some m | _ => None end
-  else match e with
-       | PDone b => Some (mkPM (w_req m) (w_proc m) false b)
-       | PIsProc _ b => Some (mkPM (w_req m) (if b then w_proc m + 1 else w_proc m)%N (w_susp m) false)
-       | PSusp b => Some (mkPM (w_req m) (w_proc m) b false)
-       | PReq k =>
-           if w_susp m then None
-           else if (w_req m + k <=? w_proc m + par)%N then Some (mkPM (w_req m + k)%N (w_proc m) false false)
-           else None
-       end.
+  match e with
+  | PTerminated => Some (mkPM (w_req m) (w_proc m) (w_susp m) true)
+  | _ =>
+    if w_fin m then None
+    else match e with
+         | PDone b => Some (mkPM (w_req m) (w_proc m) false b)
+         | PIsProc _ b => Some (mkPM (w_req m) (if b then w_proc m + 1 else w_proc m)%N (w_susp m) false)
+         | PSusp b => Some (mkPM (w_req m) (w_proc m) b false)
+         | PReq k =>
+             if w_susp m then None
+             else if (w_req m + k <=? w_proc m + par)%N then Some (mkPM (w_req m + k)%N (w_proc m) false false)
+             else None
+         | PTerminated => Some m
+         end
+  end.
 
 Fixpoint pmon_run (par : N) (m : pmon) (log : list pev) : bool :=
   match log with
